@@ -451,7 +451,9 @@ def align_variable_names_with_convention(
     for node in parsing.iter_typedefs(ast_tree):
         assert len(node.targets) == 1
         target = node.targets[0]
-        assert isinstance(target, (ast.Name, ast.Attribute))
+        if not isinstance(target, ast.Name):
+            # Tuples, attributes and subscripts are not renamed
+            continue
         typevars.add(target)
         for refnode in _get_uses_of(target, ast_tree, source):
             typevars.add(refnode)
